@@ -93,6 +93,15 @@ def make_array(dt, vals):
 
 
 # ------------------------------------------------------------------------------- implementation runner
+def _scribble(arg):
+    """the caller's argument object is overwritten right after the call that received it (a loader reusing its
+    batch list / array does exactly that): a field must hold the values it was given, not the object."""
+    if isinstance(arg, list):
+        arg[:] = ['\x00scribbled'] * (len(arg) + 1)
+    elif arg is not None and arg.size:
+        arg.view(_np.uint8)[...] ^= 0xFF            # every byte of every element changes, in place
+
+
 def _guard(fn):
     try:
         return fn()
@@ -168,11 +177,15 @@ def _run_idx(case):
         assert type(d).__name__ == 'WriteableIndexedFieldArray'
         for op in case['ops']:
             if op[0] == 'p':
-                d.write_part(op[1])
+                arg = list(op[1])
+                d.write_part(arg)
+                _scribble(arg)
             elif op[0] == 'c':
                 d.complete()
             elif op[0] == 'w':
-                d.write(op[1])
+                arg = list(op[1])
+                d.write(arg)
+                _scribble(arg)
             elif op[0] == 'x':
                 d.clear()
             elif op[0] == 'r':
@@ -276,13 +289,18 @@ def _run_plain(case):
             else:
                 raise ValueError(ft)
         d = f.data
-        parts = [make_array(pdt, vals) for pdt, vals in case['parts']]
+        # the argument arrays alternate between the two forms a caller can pass: an array that owns its memory
+        # (np.array(...)) and a view into a larger buffer (buffer[:n], what the library's own streaming code passes)
+        nv = sum(len(vals) for _, vals in case['parts'])
+        parts = [_own_array(pdt, vals, (nv + i) % 2) for i, (pdt, vals) in enumerate(case['parts'])]
         if case['how'] == 'write':
             assert len(parts) == 1
             d.write(parts[0])
+            _scribble(parts[0])
         else:
             for p in parts:
                 d.write_part(p)
+                _scribble(p)
             d.complete()
         sess = _observe_plain(f, case)
         if not case['h5']:
@@ -377,10 +395,12 @@ def _run_multi(case):
                 arg = list(op[2]) if isidx else make_array(specs[i][2], op[2])
             if o == 'p':
                 d.write_part(arg)
+                _scribble(arg)
             elif o == 'c':
                 d.complete()
             elif o == 'w':
                 d.write(arg)
+                _scribble(arg)
             elif o == 'x':
                 d.clear()
             elif o == 'o':
@@ -1660,22 +1680,44 @@ RULE = ('exhaustive small scope. Indexed strings, memory-backed: every sequence 
         'with chunk sizes around the byte/entry totals. Plain fields: every numeric dtype x extreme/special values x '
         'every partition of sequences up to length 2 (+ some longer) x both backings; timestamps; fixed strings; '
         'categoricals with keys spanning the nformat range; cross-dtype writes; HDF5 plain fields with chunksize 1..3. '
-        'A new wrapper on the same datasets (HDF5: close + reopen r+) continuing the column. Non-trivial = at least one value written.')
+        'A new wrapper on the same datasets (HDF5: close + reopen r+) continuing the column. '
+        'EVERY argument object (list / ndarray; arrays alternately owning their memory and views into a larger '
+        'buffer) is overwritten right after the call that received it. '
+        'Several fields (kind multi): two indexed fields with the same chunk size in {1,2,3,64} (+ a sample at the '
+        'production default 1<<20), every history of field A (sequences of length <= 2 (3) over 3 strings, every '
+        'partition) x 4 histories of field B x EVERY interleaving; different chunk sizes; HDF5 fields of one dataframe; '
+        'mixed backings; plain + indexed; fields are created when first touched; reads in between; 220 (1500) random '
+        'worlds of 2..4 fields (round-robin batches or random merges, second rounds, clear, new wrapper). '
+        'Arrays as objects (kind alias): one caller array and two fields, every sequence of <= 3 (4) statements out of '
+        '10 (refill, edit, write whole / view / own storage / other field\'s storage, data[i] = v, clear) memory-backed, '
+        '<= 2 (3) with HDF5 fields; 16 shapes of use (refilled batch buffer, edit after write, one array to two fields, '
+        'clear then write) x 8 field types x both backings x owner / view; 200 (1500) random histories. '
+        'Long columns: strings of 255/256/257/300 bytes and 255/256/257/1000 entries with chunk sizes around 256 '
+        '(offsets and bytes compared in full, reads sampled). Change-directed: for every small integer literal K new in '
+        'the tree, chunk sizes K-1, K, K+1 x entry / byte counts K-1, K, K+1, 2K, 2K+1, fields sharing chunk size K, '
+        'plain columns and batch buffers of K values; 4x the random budget when any library source changed. '
+        'Non-trivial = at least one value written (multi: to at least two fields).')
 EXHAUSTIVE = {'quick': True, 'thorough': True}
 TRUSTED = ['numpy slicing / slice assignment / np.zeros and h5py dataset create/resize/slice are modelled as list '
            'operations (np_slice, np_assign in coq/Model/IdxWriter.v), exercised here, not verified',
            'str.encode()/bytes.decode() (UTF-8) stay in the harness: the model sees byte lists',
            'HDF5 persistence (close + reopen returns the bytes written) is observed by the correspondence only']
 ASSUMPTIONS = ['values written are representable in the field dtype (no casting overflow is modelled)',
+               'a field is read only while it has nothing staged itself (other fields may have); write_part(a, '
+               'move_mem=True) hands the array over and is outside the property (model fidelity only)',
                'fixed-string values do not end in NUL (numpy S dtype strips trailing NULs)',
                'chunksize >= 1']
 TECHNIQUE = ('Coq proof (state-machine model of WriteableIndexedFieldArray and of the memory/HDF5 field arrays = '
-             'concat/prefix-sum spec, for every chunksize and partition) + exhaustive small-scope differential '
-             'correspondence against /repo with real HDF5 files')
+             'concat/prefix-sum spec, for every chunksize and partition; a world of several fields: every interleaving '
+             '= the per-field histories; a heap of arrays with identity = the value semantics) + exhaustive small-scope '
+             'differential correspondence against /repo with real HDF5 files')
 LEVEL_TEXT = ('Theorems in coq/Props/C01.v prove for every chunksize >= 1, both backings and every history of '
               'write_part/complete/write calls that the stored offsets are the prefix sums of the entry lengths and the '
               'stored bytes their concatenation, that every in-range slice/item read returns the entries written, and '
-              'that appending through any partition yields the same array; the model is tied to /repo by running the '
+              'that appending through any partition yields the same array, that any interleaving of the histories of '
+              'several fields leaves each field with what its own history writes, and that (arrays modelled as objects '
+              'with identity) a field holds the values its argument had at the call whatever the caller or another '
+              'field does to the array afterwards; the model is tied to /repo by running the '
               'extracted model and the real classes (memory and HDF5 files, with close/reopen) on the same cases.')
 LEVEL_NOTE = ('Trusted: Coq kernel, extraction, harness. numpy/h5py are modelled as list operations; persistence across '
               'reopen, dtype and key fidelity are established by the correspondence only (partial).')
